@@ -281,15 +281,20 @@ def c11_make (e : Env) (r : MakeReq) (o : Obs) : Bool :=
     | .panic => false
     | _ => true
 
-/-- assertion: a user handle is returned exactly when the credential used stores one (and it is that one) -/
+/-- assertion: a user handle is returned exactly when the credential used stores one (and it is that one);
+and what is stored stays stored: no assertion adds, removes or changes the user handle of a credential
+(the handle is stored exactly when the credential was created discoverable) -/
 def c11_get (e : Env) (o : Obs) : Bool :=
+  let kept := e.pre.all (fun p => match o.store.find? (fun q => q.credId == p.credId) with
+    | some q => q.userHandle == p.userHandle
+    | none => true)
   match o.res with
   | .getOk cred _ uh _ _ =>
-    (match e.pre.find? (fun p => p.credId == cred) with
+    kept && (match e.pre.find? (fun p => p.credId == cred) with
       | some p => uh == p.userHandle
       | none => true)
   | .panic => false
-  | _ => true
+  | _ => kept
 
 /-! ### C09 — PRF results are the specified HMAC, per credential, gated on verification -/
 
